@@ -1128,6 +1128,9 @@ fn gen_hints(h: &Hints, emit: &mut dyn FnMut(Value)) {
             // outside the driver's character model (exact on ASCII, every other char an uncased letter): the hinted text is still
             // exercised, on the implementation alone, as captured value and as host literal of `uni` cases (tag hint:out-of-model)
             let clean = |x: &str| !x.is_empty() && !x.chars().any(|c| "/.;=?".contains(c));
+            // as a host LITERAL only if lower-casing keeps one char per char: `İ`.to_lowercase() is two chars, which the crate's
+            // simple case folding never matches (observation O-W9-1 in notes/wp/W9.md), so such a literal goes to the value only
+            let lit_ok = t.chars().all(|c| c.to_lowercase().count() == 1 && c.to_uppercase().count() == 1);
             if clean(&t) {
                 for layer in ["path", "host", "header"] {
                     for (ipc, ihc, ihdc) in [(false, false, false), (true, true, true)] {
@@ -1135,7 +1138,7 @@ fn gen_hints(h: &Hints, emit: &mut dyn FnMut(Value)) {
                             for value in [t.clone(), format!("a{t}B"), t.to_uppercase(), t.to_lowercase()] {
                                 if clean(&value) {
                                     emit(json!({"kind": "uni", "hint": true, "cfg": {"ipc": ipc, "ihc": ihc, "ihdc": ihdc}, "layer": layer,
-                                                "lit": if layer == "host" { t.as_str() } else { "p" }, "req_lit": if layer == "host" { t.as_str() } else { "p" }, "regex": re, "value": value}));
+                                                "lit": if layer == "host" && lit_ok { t.as_str() } else { "p" }, "req_lit": if layer == "host" && lit_ok { t.as_str() } else { "p" }, "regex": re, "value": value}));
                                 }
                             }
                         }
